@@ -1,0 +1,28 @@
+package client
+
+import (
+	"sync"
+
+	"github.com/cenkalti/rpc2"
+)
+
+// lockedCodec serialises the writes to an rpc2 codec. rpc2 requires
+// WriteRequest and WriteResponse to be safe for concurrent use, which the
+// jsonrpc codec (one shared json.Encoder) is not: a reply to a server
+// notification and a request of the client could interleave on the wire.
+type lockedCodec struct {
+	rpc2.Codec
+	mu sync.Mutex
+}
+
+func (c *lockedCodec) WriteRequest(r *rpc2.Request, v interface{}) error {
+	c.mu.Lock()
+	defer c.mu.Unlock()
+	return c.Codec.WriteRequest(r, v)
+}
+
+func (c *lockedCodec) WriteResponse(r *rpc2.Response, v interface{}) error {
+	c.mu.Lock()
+	defer c.mu.Unlock()
+	return c.Codec.WriteResponse(r, v)
+}
